@@ -12,6 +12,7 @@
 # See the License for the specific language governing permissions and
 # limitations under the License.
 import sys
+import ast
 from ast import NodeTransformer
 
 from .astrewriter import ASTRewriter
@@ -30,8 +31,19 @@ class IndexReplacer(NodeTransformer):
         return self.visit(node.value)
 
 
+def _reject_reserved_names(a_tree):
+    """_iftarg<n> and _temptup are the names the rewriting passes below generate"""
+    for node in ast.walk(a_tree):
+        name = getattr(node, "id", None) if isinstance(node, ast.Name) else None
+        if isinstance(node, ast.arg):
+            name = node.arg
+        if name is not None and (name.startswith("_iftarg") or name == "_temptup"):
+            raise Exception(f"invalid name {name}: reserved for internal use")
+
+
 def ast2ast(a_tree):
     # print(ast.dump(a_tree))
+    _reject_reserved_names(a_tree)
 
     # Replace indexes with its content if python < 3.9
     if sys.version_info < (3, 9):
